@@ -195,6 +195,61 @@ def server_script(rng, i):
     return {"name": f"c16-srv{i}", "suite": 1, "members": members, "ops": ops}, {"checks": checks, "ct": [], "bad": [], "ext": [], "observers": {"S": {"jitter": None}}}
 
 
+def nocache_script(rng, i):
+    """An observer that is an external sender and was built with cache_proposals(false): it keeps
+    no proposal it merely sees, but it knows what it proposed itself, so it follows every commit
+    that references only its own proposals (by reference) or carries proposals by value."""
+    names = ["A", "B", "C", "D", "E"]
+    members = [{"name": n} for n in names + ["M0", "M1", "M2", "Z"]]
+    ops = [{"op": "create", "who": "A", "ext_senders": ["Z"]}]
+    for n in names[1:]:
+        ops.append({"op": "kp", "who": n, "id": "k" + n})
+    ops += [{"op": "commit", "who": "A", "id": "c0", "add": ["k" + n for n in names[1:]]}, {"op": "apply", "who": "A"}]
+    for n in names[1:]:
+        ops.append({"op": "join", "who": n, "welcome_any": "c0"})
+    for n in names:
+        ops.append({"op": "opts", "who": n, "encrypt_controls": False, "tree_ext": True, "path_required": rng.chance(1, 2)})
+    ops.append({"op": "group_info", "who": "A", "id": "gi0", "ext_commit": True, "tree_ext": True})
+    ops.append({"op": "obs_join", "who": "X", "gi": "gi0", "signer_of": "Z", "no_cache": True})
+    live = list(names)
+    checks, ext = [], []
+    epoch = 1
+    for r in range(3):
+        pid = f"xq{r}"
+        if rng.chance(1, 2) or len(live) <= 3:
+            ops.append({"op": "kp", "who": f"M{r}", "id": f"kM{r}"})
+            ops.append({"op": "obs_propose", "who": "X", "kind": "add", "kp": f"kM{r}", "id": pid})
+            xp = ("add", f"M{r}")
+        else:
+            t = rng.choice(live[1:])
+            ops.append({"op": "obs_propose", "who": "X", "kind": "remove", "name": t, "id": pid})
+            xp = ("remove", t)
+        for m in live:
+            ops.append({"op": "deliver", "to": m, "msg": pid})
+        c = rng.choice([m for m in live if not (xp[0] == "remove" and m == xp[1])])
+        cid = f"cx{r}"
+        ops.append({"op": "opts", "who": c, "encrypt_controls": False, "tree_ext": True})
+        ops.append({"op": "commit", "who": c, "id": cid})
+        ext.append((len(ops) - 1, xp))
+        for m in live:
+            if m != c:
+                ops.append({"op": "deliver", "to": m, "msg": cid})
+        ops.append({"op": "apply", "who": c})
+        ops.append({"op": "obs_deliver", "who": "X", "to": "X", "msg": cid})
+        if xp[0] == "add":
+            ops.append({"op": "join", "who": xp[1], "welcome_any": cid})
+            ops.append({"op": "opts", "who": xp[1], "encrypt_controls": False, "tree_ext": True})
+            live.append(xp[1])
+        else:
+            live.remove(xp[1])
+        epoch += 1
+        if rng.chance(1, 3):
+            ops.append({"op": "obs_reload", "who": "X"})
+        ops.append({"op": "observe", "who": live[0], "observe": "all"})
+        checks.append((len(ops) - 1, epoch))
+    return {"name": f"c16-nc{i}", "suite": 1, "members": members, "ops": ops}, {"checks": checks, "ct": [], "bad": [], "ext": ext, "observers": {"X": {"jitter": None}}}
+
+
 def main(run, args):
     rng = Rng(run.seed)
     run.assumptions += [
@@ -217,7 +272,7 @@ def main(run, args):
         run.violation("harness build failed", herr, failing_input_found=False)
         return
     quick = run.tier == "quick"
-    items = [gen(rng, i, quick) for i in range(20 if quick else 150)] + [server_script(rng, i) for i in range(8 if quick else 60)]
+    items = [gen(rng, i, quick) for i in range(20 if quick else 150)] + [server_script(rng, i) for i in range(8 if quick else 60)] + [nocache_script(rng, i) for i in range(6 if quick else 40)]
     recs = run_scripts([x[0] for x in items], timeout=3000)
     failing = []
     stats = {"observer_comparisons": 0, "ciphertexts": 0, "refused_by_window": 0, "bad_handshake": 0, "external_proposals_committed": 0, "reloads": 0, "jitter_gt_epoch": 0}
